@@ -164,29 +164,6 @@ fn npo_imbalance<S: Setup>(prog: &Prog, p: &Pipeline<S>, cfg: &PackCfg) -> bool 
     matches!(guarded(|| S::prove(&prover, traces, cpd)), Err(m) if m.contains("Lookup mismatch"))
 }
 
-/// Programs of the directed `recompose-dense` family: first statement public, then per value
-/// `Public, DecomposeExt, Add...` (recognised by shape so that replays classify alike).
-fn dense_family(prog: &Prog) -> bool {
-    prog.stmts.len() >= 4
-        && matches!(prog.stmts[0], Stmt::Public)
-        && matches!(prog.stmts[1], Stmt::Public)
-        && matches!(prog.stmts[2], Stmt::DecomposeExt(1))
-        && prog.stmts.iter().filter(|s| matches!(s, Stmt::DecomposeExt(_))).count() >= 2
-        && prog.stmts.iter().all(|s| matches!(s, Stmt::Public | Stmt::DecomposeExt(_) | Stmt::Add(..) | Stmt::RecomposeExt(..) | Stmt::Mul(..)))
-        && {
-            // no value decomposed twice, no coefficient recomposed twice
-            let mut dec: Vec<usize> = prog.stmts.iter().filter_map(|s| if let Stmt::DecomposeExt(x) = s { Some(*x) } else { None }).collect();
-            let n = dec.len();
-            dec.sort();
-            dec.dedup();
-            let mut rec: Vec<usize> = prog.stmts.iter().filter_map(|s| if let Stmt::RecomposeExt(cs, _) = s { Some(cs.clone()) } else { None }).flatten().collect();
-            let m = rec.len();
-            rec.sort();
-            rec.dedup();
-            dec.len() == n && rec.len() == m
-        }
-}
-
 /// Key generation refused the circuit with `UnclaimedPrivateInput`: is some private input of the
 /// program one whose expression lives in a slot that an ALU / plugin-table op of the compiled
 /// circuit refers to?
@@ -251,7 +228,7 @@ fn signature<S: Setup>(prog: &Prog, p: &Pipeline<S>, cfg: &PackCfg) -> Option<St
     let (name, st) = p.first_failure()?;
     // the directed recompose-dense family has its own keys (flavour and lane count): the classes
     // below are too coarse to tell a lane-stride defect from the known double-creator one
-    if prog.recompose_npo && dense_family(prog) && name != "build" {
+    if prog.recompose_npo && p3r_verif::pgen::is_recompose_dense(prog) && name != "build" {
         let (lanes, split) = prog.recompose_cfg();
         return Some(format!("unprovable/directed-recompose-dense/{}-lanes{lanes}/{name}", if split { "split-coeff" } else { "standard" }));
     }
@@ -529,63 +506,16 @@ fn directed<S: Setup>() -> Vec<CaseResult> {
             }
         }
     }
-    // recompose tables dense in rows, every flavour / lane count: n extension publics are
-    // decomposed (one table row each), every coefficient is read by the ALU, and the coefficients
-    // of every other value are supplied again as fresh inputs and recomposed (a second kind of row)
-    if matches!(S::D, 2 | 4 | 5) {
-        for variant in 0u8..5 {
-            for n in [2usize, 3, 5] {
-                let mut stmts = vec![Stmt::Public];
-                let mut publics = vec![S::el(&[7])];
-                let mut acc = 0usize;
-                let mut nv = 1usize;
-                for k in 0..n {
-                    let x = nv;
-                    stmts.push(Stmt::Public);
-                    nv += 1;
-                    let cs: Vec<u64> = (0..S::D).map(|i| 1 + (k as u64) + 10u64.pow(i as u32 % 4)).collect();
-                    publics.push(S::el(&cs));
-                    stmts.push(Stmt::DecomposeExt(x));
-                    let coeffs: Vec<usize> = (nv..nv + S::D).collect();
-                    nv += S::D;
-                    for cidx in &coeffs {
-                        stmts.push(Stmt::Add(acc, *cidx));
-                        acc = nv;
-                        nv += 1;
-                    }
-                    // every other value is also rebuilt from fresh coefficient inputs (a row whose
-                    // inputs are not hint outputs), through the flavour's own entry point
-                    if k % 2 == 1 {
-                        let fresh: Vec<usize> = (0..S::D)
-                            .map(|i| {
-                                stmts.push(Stmt::Public);
-                                publics.push(S::el(&[cs[i]]));
-                                nv += 1;
-                                nv - 1
-                            })
-                            .collect();
-                        stmts.push(Stmt::RecomposeExt(fresh, if variant >= 2 { 1 } else { 0 }));
-                        let r = nv;
-                        nv += 1;
-                        stmts.push(Stmt::Mul(r, x));
-                        nv += 1;
-                    }
-                }
-                let prog = Prog { stmts, recompose_npo: true, recompose_variant: variant };
-                let ev = eval::<S>(&prog, &publics, &[]);
-                if !ev.all_hold() {
-                    out.push(CaseResult::inconclusive(format!("{}:directed:recompose-dense:v{variant}:n{n}", S::NAME), "directed recompose program does not hold in the reference evaluator"));
-                    continue;
-                }
-                for cfg in [PackCfg::default_cfg(), PackCfg { public_lanes: 2, alu_lanes: 3, min_height: 1, horner_k: 2, optimized_profile: false }] {
-                    let key = format!("{}:directed:recompose-dense:v{variant}:n{n}:{}", S::NAME, cfg.key());
-                    if std::env::var("P3R_DEBUG_DENSE").is_ok() {
-                        let pp = run_pipeline::<S>(&prog, &publics, &[], &cfg, false, true);
-                        eprintln!("DENSE {key} {} sig={:?}", pp.stages_json(), signature::<S>(&prog, &pp, &cfg));
-                    }
-                    out.push(one::<S>(&prog, &publics, &[], &cfg, key, false).count("directed/recompose-dense", 1));
-                }
-            }
+    // recompose tables dense in rows, every flavour / lane count (`pgen::recompose_dense_programs`)
+    for (variant, n, prog, publics) in p3r_verif::pgen::recompose_dense_programs::<S>() {
+        let ev = eval::<S>(&prog, &publics, &[]);
+        if !ev.all_hold() {
+            out.push(CaseResult::inconclusive(format!("{}:directed:recompose-dense:v{variant}:n{n}", S::NAME), "directed recompose program does not hold in the reference evaluator"));
+            continue;
+        }
+        for cfg in [PackCfg::default_cfg(), PackCfg { public_lanes: 2, alu_lanes: 3, min_height: 1, horner_k: 2, optimized_profile: false }] {
+            let key = format!("{}:directed:recompose-dense:v{variant}:n{n}:{}", S::NAME, cfg.key());
+            out.push(one::<S>(&prog, &publics, &[], &cfg, key, false).count("directed/recompose-dense", 1));
         }
     }
     out
